@@ -4,11 +4,20 @@ From FEC Require Import Models.PackingM Models.LayoutM Models.LayoutTables Proof
      Generated.LayoutCpp Generated.LayoutPyProbe Generated.LayoutExc.
 Import ListNotations.
 
-Lemma layouts_agree_b : forallb2 (struct_agree cpp_layouts layout_exceptions) cpp_layouts py_layouts = true.
+Lemma layouts_agree_b : paths_agree cpp_layouts layout_exceptions cpp_layouts py_layouts py_layout_paths = true.
 Proof. vm_compute. reflexivity. Qed.
 
-Lemma layouts_agree_forall : layouts_agree_spec cpp_layouts layout_exceptions cpp_layouts py_layouts.
-Proof. apply forallb2_struct_agree_sound. exact layouts_agree_b. Qed.
+Lemma layouts_agree_forall : forall path tbl, In (path, tbl) py_layout_paths ->
+  layouts_agree_spec cpp_layouts layout_exceptions cpp_layouts tbl /\
+  List.length py_layouts = List.length tbl /\
+  forall p q, In (p, q) (combine py_layouts tbl) -> same_fixed p q = true.
+Proof. exact (paths_agree_sound _ _ _ _ _ layouts_agree_b). Qed.
+
+(* the reference table (explicit message version) is one of the paths, and there are the three ways of reading *)
+Lemma reference_is_a_path : exists path, In (path, py_layouts) py_layout_paths.
+Proof. eexists. left. reflexivity. Qed.
+Lemma three_paths : List.length py_layout_paths = 3.
+Proof. reflexivity. Qed.
 
 Lemma readme_b : forallb follows_readme cpp_layouts = true.
 Proof. vm_compute. reflexivity. Qed.
